@@ -1,164 +1,49 @@
 #!/usr/bin/env python3
-"""Translator: regenerates /verif/coq/gen/Gen_*.v from /repo's current source.
+"""Translator: regenerates /verif/coq/gen/Gen_*.v from the repository's current source.
 
 Not a Rust-to-Gallina compiler: it extracts exactly the constants, tables and
 orderings the theorems are stated over.  Every item has an anchor; an anchor
 that is not found prints `LOST-ANCHOR <gen> <item>` and the exit status is 1.
+Generators live in tools/gen_*.py, each exposing generate(repo) -> (name, text)
+or a list of such pairs.
 """
 import argparse
+import glob
+import importlib
 import os
-import re
-import struct
 import sys
 
-sys.path.insert(0, os.path.join(os.path.dirname(os.path.abspath(__file__)), '..', 'lib'))
-from coqterm import fbits_to_coq, coq_string  # noqa: E402
-
-LOST = []
-
-
-def lost(gen, item, why=''):
-    LOST.append((gen, item))
-    print('LOST-ANCHOR %s %s %s' % (gen, item, why))
-
-
-def read(repo, rel):
-    with open(os.path.join(repo, rel), encoding='utf-8') as f:
-        return f.read()
-
-
-def strip_rust_comments(s):
-    """Remove // and /* */ comments, keep string literals intact."""
-    out = []
-    i, n = 0, len(s)
-    while i < n:
-        c = s[i]
-        if c == '"':
-            j = i + 1
-            while j < n and s[j] != '"':
-                j += 2 if s[j] == '\\' else 1
-            out.append(s[i:j + 1])
-            i = j + 1
-        elif s.startswith('//', i):
-            j = s.find('\n', i)
-            i = n if j < 0 else j
-        elif s.startswith('/*', i):
-            j = s.find('*/', i + 2)
-            i = n if j < 0 else j + 2
-        elif c == "'" and i + 2 < n and (s[i + 2] == "'" or (s[i + 1] == '\\' and s.find("'", i + 2) - i <= 6)):
-            j = s.find("'", i + 2 if s[i + 1] != '\\' else i + 3)
-            out.append(s[i:j + 1])
-            i = j + 1
-        else:
-            out.append(c)
-            i += 1
-    return ''.join(out)
-
-
-def fn_body(src, name, gen, kind=r'fn'):
-    """Text of `fn name ... { body }` by brace matching (src already comment-stripped)."""
-    m = re.search(r'\b%s\s+%s\b[^{;]*\{' % (kind, re.escape(name)), src)
-    if not m:
-        lost(gen, 'fn ' + name)
-        return ''
-    i = m.end()
-    depth = 1
-    in_str = False
-    while i < len(src) and depth:
-        c = src[i]
-        if in_str:
-            if c == '\\':
-                i += 1
-            elif c == '"':
-                in_str = False
-        else:
-            if c == '"':
-                in_str = True
-            elif c == '{':
-                depth += 1
-            elif c == '}':
-                depth -= 1
-        i += 1
-    return src[m.end():i - 1]
-
-
-def f64_lit(x):
-    return fbits_to_coq(struct.unpack('<Q', struct.pack('<d', float(x)))[0])
-
-
-HEADER = '(* GENERATED by /verif/tools/translate.py from /repo — do not edit. *)\n'
-
-
-# ---------------------------------------------------------------------------------- Gen_Policy
-def gen_policy(repo):
-    g = 'Gen_Policy'
-    pol = strip_rust_comments(read(repo, 'rs/anda_cognitive_nexus/src/projection/policy.rs'))
-    prj = strip_rust_comments(read(repo, 'rs/anda_cognitive_nexus/src/projection/mod.rs'))
-    base = fn_body(pol, 'baseline', g)
-    out = [HEADER, 'From Coq Require Import List String Floats.\nFrom Verif Require Import Belief.Model.\nImport ListNotations.\n']
-    for field in ('accept', 'material', 'unstated_confidence'):
-        m = re.search(r'\b%s\s*:\s*([0-9.]+)\s*,' % field, base)
-        if not m:
-            lost(g, 'baseline.' + field)
-            continue
-        out.append('Definition baseline_%s : float := %s.  (* %s *)\n' % (field, f64_lit(m.group(1)), m.group(1)))
-    m = re.search(r'modes\s*:\s*vec!\[(.*?)\]', base, re.S)
-    if m:
-        modes = re.findall(r'AssertionMode::(\w+)', m.group(1))
-        out.append('Definition baseline_modes : list mode := [%s].\n' % '; '.join(modes))
-    else:
-        lost(g, 'baseline.modes')
-    m = re.search(r'expand_conflicts\s*:\s*(true|false)', base)
-    if m:
-        out.append('Definition baseline_expand : bool := %s.\n' % m.group(1))
-    else:
-        lost(g, 'baseline.expand_conflicts')
-    # aggregate: is the fold over sorted confidences?
-    agg = fn_body(prj, 'aggregate', g)
-    if agg:
-        fold = agg.find('.fold(')
-        if fold < 0:
-            lost(g, 'aggregate.fold')
-        srt = re.search(r'\.sort_by\(\s*f64::total_cmp\s*\)|sort_by\(\|a,\s*b\|\s*a\.total_cmp\(b\)\)', agg[:fold if fold > 0 else 0])
-        out.append('Definition score_fold_sorted : bool := %s.\n' % ('true' if srt else 'false'))
-        out.append('Definition group_conf_uses_max : bool := %s.\n' % ('true' if re.search(r'\.1\s*=\s*groups\[\w+\]\.1\.max\(', agg) else 'false'))
-    # classify: order of the returned statuses
-    cls = fn_body(prj, 'classify', g)
-    if cls:
-        order = re.findall(r'BeliefStatus::(\w+)', cls)
-        out.append('Definition classify_order : list status := [%s].\n' % '; '.join(order))
-        conds = re.findall(r'if\s+(.*?)\s*\{', cls, re.S)
-        conds = [' '.join(c.split()) for c in conds]
-        out.append('Definition classify_conditions : list string := [%s].\n' % '; '.join(coq_string(c) for c in conds))
-    # eligible: order of the exclusion reasons
-    elig = fn_body(prj, 'eligible', g)
-    if elig:
-        reasons = re.findall(r'reject\("(\w+)"\)', elig)
-        out.append('Definition eligible_reasons : list string := [%s].\n' % '; '.join(coq_string(r) for r in reasons))
-    return g, ''.join(out)
-
-
-GENERATORS = [gen_policy]
+HERE = os.path.dirname(os.path.abspath(__file__))
+sys.path.insert(0, HERE)
+import trlib  # noqa: E402
 
 
 def main():
     ap = argparse.ArgumentParser()
     ap.add_argument('--repo', default='/repo')
     ap.add_argument('--out', default='/verif/coq/gen')
+    ap.add_argument('--only', default=None)
     a = ap.parse_args()
     os.makedirs(a.out, exist_ok=True)
-    for gen in GENERATORS:
-        try:
-            name, text = gen(a.repo)
-        except Exception as ex:  # a refactor that breaks the extractor is a lost anchor, not a pass
-            lost(gen.__name__, 'exception', repr(ex))
+    for path in sorted(glob.glob(HERE + '/gen_*.py')):
+        modname = os.path.basename(path)[:-3]
+        if a.only and a.only != modname:
             continue
-        path = os.path.join(a.out, name + '.v')
-        old = open(path).read() if os.path.exists(path) else None
-        if old != text:          # keep mtime stable when nothing changed (make cache)
-            open(path, 'w').write(text)
-        print('generated %s (%d bytes)' % (path, len(text)))
-    sys.exit(1 if LOST else 0)
+        try:
+            mod = importlib.import_module(modname)
+            res = mod.generate(a.repo)
+        except Exception as ex:  # a refactor that breaks the extractor is a lost anchor, not a pass
+            trlib.lost(modname, 'exception', repr(ex))
+            continue
+        if isinstance(res, tuple):
+            res = [res]
+        for name, text in res:
+            p = os.path.join(a.out, name + '.v')
+            old = open(p).read() if os.path.exists(p) else None
+            if old != text:          # keep mtime stable when nothing changed (make cache)
+                open(p, 'w').write(text)
+            print('generated %s (%d bytes)' % (p, len(text)))
+    sys.exit(1 if trlib.LOST else 0)
 
 
 if __name__ == '__main__':
